@@ -112,7 +112,9 @@ fn match_known<'a>(known: &'a [serde_json::Value], prop: Prop, f: &Found, scn: &
     })
 }
 
-fn write_replay(prop: Prop, scn: &Scenario, f: &Found, original: &Scenario, attempts: usize, nondeterministic: bool) -> String {
+const SESSION_LEN: u64 = 512;
+
+fn write_replay(prop: Prop, scn: &Scenario, f: &Found, original: &Scenario, attempts: usize, nondeterministic: bool, earlier: &[Scenario]) -> String {
     let dir = "/verif/replays";
     let _ = std::fs::create_dir_all(dir);
     let path = format!("{dir}/{}-seed{}-run{}-{}.json", prop.id(), scn.seed, scn.run_index, f.rule);
@@ -124,6 +126,7 @@ fn write_replay(prop: Prop, scn: &Scenario, f: &Found, original: &Scenario, atte
         "code_under_test_nondeterministic": nondeterministic,
         "expected_fingerprint": f.fingerprint.to_string(),
         "scenario": scn.to_json(),
+        "earlier_scenarios_of_the_session": earlier.iter().map(|e| e.to_json()).collect::<Vec<_>>(),
         "history_of_failing_run": f.history,
         "outcome_of_failing_run": f.outcome,
         "minimisation": {"attempts": attempts, "original_document_nodes": original.doc.size(), "minimised_document_nodes": scn.doc.size(),
@@ -150,13 +153,31 @@ fn cmd_replay(env: &Env, file: &str) -> i32 {
     }
     let want_fp = j.get("expected_fingerprint").and_then(|f| f.as_str()).unwrap_or("").to_string();
     let retries = if j.get("code_under_test_nondeterministic").and_then(|b| b.as_bool()).unwrap_or(false) { 200 } else { 1 };
+    let mut earlier: Vec<Scenario> = vec![];
+    if let Some(list) = j.get("earlier_scenarios_of_the_session").and_then(|l| l.as_array()) {
+        for e in list {
+            let mut s = Scenario::from_json(e).unwrap_or_else(|| harness_error("replay file: cannot decode an earlier scenario"));
+            match env.cat.programs.iter().position(|p| p.name == s.program_name) {
+                Some(i) => s.program = i,
+                None => harness_error("replay file: an earlier scenario's program is not in this catalogue"),
+            }
+            earlier.push(s);
+        }
+    }
     let mut found = vec![];
     for _ in 0..retries {
-        let mut st = Stats::default();
-        found = check(prop, env, &scn, &mut st);
+        found = if earlier.is_empty() {
+            let mut st = Stats::default();
+            check(prop, env, &scn, &mut st)
+        } else {
+            checks::check_after(prop, env, &earlier, &scn)
+        };
         if found.iter().any(|f| f.rule == rule) {
             break;
         }
+    }
+    if !earlier.is_empty() {
+        println!("replay: first the {} scenarios that preceded it in its session, on the same thread", earlier.len());
     }
     println!("replay: property={} rule={rule} program={} document={}", prop.id(), scn.program_name, scn.doc.render());
     match found.iter().find(|f| f.rule == rule) {
@@ -226,9 +247,12 @@ fn cmd_check(env: &Env, prop: Prop, args: &[String]) -> i32 {
     let next = AtomicU64::new(0);
     let stop = AtomicBool::new(false);
     let total = Mutex::new(Stats::default());
-    let violations: Mutex<Vec<(u64, Scenario, Vec<Found>)>> = Mutex::new(vec![]);
+    let violations: Mutex<Vec<(u64, Scenario, Vec<Found>, u64)>> = Mutex::new(vec![]);
     let fps: Mutex<Vec<(u64, u64)>> = Mutex::new(vec![]);
-    let chunk: u64 = 64;
+    // A chunk of consecutive scenarios is a *session*: it runs on a thread of its own, so that
+    // whatever the code under test may keep per thread has a history that is a pure function of
+    // (seed, first scenario of the session) and can be replayed.
+    let chunk: u64 = SESSION_LEN;
     std::thread::scope(|s| {
         for _ in 0..threads {
             s.spawn(|| {
@@ -242,8 +266,12 @@ fn cmd_check(env: &Env, prop: Prop, args: &[String]) -> i32 {
                     if from >= n_scenarios {
                         break;
                     }
+                    let (st_ref, fps_ref) = (&mut st, &mut local_fps);
+                    let (profile, violations, fp_log) = (&profile, &violations, &fp_log);
+                    let session = move || {
+                    let (st, local_fps) = (st_ref, fps_ref);
                     for i in from..(from + chunk).min(n_scenarios) {
-                        let scn = scenario::generate(&env.cat, &env.feats, &profile, simcore::rng::mix(seed, prop.tag(), 0), i);
+                        let scn = scenario::generate(&env.cat, &env.feats, profile, simcore::rng::mix(seed, prop.tag(), 0), i);
                         for (k, n) in scn.src_faults.as_pairs() {
                             st.bump(&format!("{k}_injected"), n as u64);
                         }
@@ -265,7 +293,7 @@ fn cmd_check(env: &Env, prop: Prop, args: &[String]) -> i32 {
                             st.bump("scenarios_without_any_fault", 1);
                         }
                         let runs_before = st.runs;
-                        let (found, scn_fp) = checks::check_fp(prop, env, &scn, &mut st);
+                        let (found, scn_fp) = checks::check_fp(prop, env, &scn, st);
                         if fp_log.is_some() {
                             local_fps.push((i, scn_fp));
                         }
@@ -298,8 +326,12 @@ fn cmd_check(env: &Env, prop: Prop, args: &[String]) -> i32 {
                             }
                         }
                         if !found.is_empty() {
-                            violations.lock().unwrap().push((i, scn, found));
+                            violations.lock().unwrap().push((i, scn, found, from));
                         }
+                    }
+                    };
+                    if std::thread::scope(|s2| s2.spawn(session).join()).is_err() {
+                        harness_error("a session thread died");
                     }
                     if start.elapsed().as_secs_f64() > max_seconds {
                         stop.store(true, Ordering::Relaxed);
@@ -349,15 +381,17 @@ fn cmd_check(env: &Env, prop: Prop, args: &[String]) -> i32 {
     let mut n_violation_lines = 0;
     let mut unpinned = 0;
     let n_violating_scenarios = violations.len();
-    for (_, scn, found) in &violations {
+    for (idx, scn, found, session_start) in &violations {
         let f = &found[0];
         if reported_rules.contains(&f.rule) && n_violation_lines + known_printed.len() >= 1 {
             continue;
         }
+        // every verification step below runs the scenario on a thread of its own
         let (mut min_scn, attempts) = minimise(prop, env, scn, f.rule);
         let mut st = Stats::default();
-        let refound = check(prop, env, &min_scn, &mut st);
+        let refound = checks::check_isolated(prop, env, &min_scn, &mut st);
         let mut nondeterministic = false;
+        let mut earlier: Vec<Scenario> = vec![];
         let mf = match refound.iter().find(|x| x.rule == f.rule) {
             Some(x) => x.clone(),
             None => {
@@ -370,7 +404,7 @@ fn cmd_check(env: &Env, prop: Prop, args: &[String]) -> i32 {
                 let mut again = None;
                 for _ in 0..50 {
                     let mut st = Stats::default();
-                    if let Some(x) = check(prop, env, scn, &mut st).iter().find(|x| x.rule == f.rule) {
+                    if let Some(x) = checks::check_isolated(prop, env, scn, &mut st).iter().find(|x| x.rule == f.rule) {
                         again = Some(x.clone());
                         break;
                     }
@@ -378,8 +412,43 @@ fn cmd_check(env: &Env, prop: Prop, args: &[String]) -> i32 {
                 match again {
                     Some(x) => x,
                     None => {
-                        unpinned += 1;
-                        continue;
+                        // Alone on a fresh thread the scenario passes, every time. What is left is
+                        // the history: the calls made earlier in the same session, on the same
+                        // thread. Re-run the session up to this scenario; if the violation comes
+                        // back, the outcome of a call depends on earlier, unrelated calls.
+                        nondeterministic = false;
+                        let sess: Vec<Scenario> = (*session_start..*idx)
+                            .map(|j| scenario::generate(&env.cat, &env.feats, &profile, simcore::rng::mix(seed, prop.tag(), 0), j))
+                            .collect();
+                        let hit = |earlier: &[Scenario]| checks::check_after(prop, env, earlier, scn).into_iter().find(|x| x.rule == f.rule);
+                        match hit(&sess) {
+                            None => {
+                                unpinned += 1;
+                                continue;
+                            }
+                            Some(full) => {
+                                // shortest suffix of the session (by doubling) that still brings it back
+                                let mut keep = sess.len();
+                                let mut best = full;
+                                let mut n = 1usize;
+                                while n < sess.len() {
+                                    if let Some(x) = hit(&sess[sess.len() - n..]) {
+                                        keep = n;
+                                        best = x;
+                                        break;
+                                    }
+                                    n *= 2;
+                                }
+                                earlier = sess[sess.len() - keep..].to_vec();
+                                let mut x = best;
+                                x.msg = format!(
+                                    "only after {} earlier calls' worth of scenarios on the same thread (alone on a fresh thread the same scenario passes): the outcome of a call depends on earlier, unrelated calls | {}",
+                                    earlier.len(),
+                                    x.msg
+                                );
+                                x
+                            }
+                        }
                     }
                 }
             }
@@ -395,7 +464,7 @@ fn cmd_check(env: &Env, prop: Prop, args: &[String]) -> i32 {
             continue;
         }
         reported_rules.push(f.rule);
-        let path = write_replay(prop, &min_scn, &mf, scn, attempts, nondeterministic);
+        let path = write_replay(prop, &min_scn, &mf, scn, attempts, nondeterministic, &earlier);
         // the replay file must reproduce the violation in a fresh process
         let exe = std::env::current_exe().unwrap_or_else(|e| harness_error(&format!("current_exe: {e}")));
         let out = std::process::Command::new(exe).arg("replay").arg(&path).output();
@@ -403,6 +472,9 @@ fn cmd_check(env: &Env, prop: Prop, args: &[String]) -> i32 {
             Ok(o) if o.status.code() == Some(1) => {}
             Ok(o) => harness_error(&format!("replay of {path} in a fresh process did not reproduce the violation (exit {:?})", o.status.code())),
             Err(e) => harness_error(&format!("cannot spawn replay: {e}")),
+        }
+        if !earlier.is_empty() {
+            println!("note: history-dependent: the replay file first re-runs the {} scenarios that preceded this one in its session", earlier.len());
         }
         if nondeterministic {
             println!("note: the code under test is NOT deterministic for this scenario (same scenario, different histories); the replay file is retried up to 200 times");
